@@ -42,7 +42,9 @@ func (c *cur) next() int {
 
 func (c *cur) emit(s string) { host.EmitS(c.tag, s) }
 
-// Classify reports dynamic type and content of a recovered value.
+// Classify reports dynamic type and content of a recovered value. Only concrete
+// types are switched on; the two interface tests use comma-ok assertions (how
+// yaegi matches `case error:` in a type switch is C05's business, not C06's).
 func Classify(r interface{}) string {
 	switch v := r.(type) {
 	case nil:
@@ -57,10 +59,12 @@ func Classify(r interface{}) string {
 		return "pt:" + strconv.Itoa(v.x) + "," + strconv.Itoa(v.y)
 	case host.Pt:
 		return "hpt:" + strconv.Itoa(v.X) + "," + strconv.Itoa(v.Y)
-	case runtime.Error:
+	}
+	if _, ok := r.(runtime.Error); ok {
 		return "RTFAULT"
-	case error:
-		return "e:" + v.Error()
+	}
+	if e, ok := r.(error); ok {
+		return "e:" + e.Error()
 	}
 	return "other"
 }
@@ -126,11 +130,14 @@ func node(g *cur, depth, id int) (res int) {
 	nd := g.next() % 4
 	counter := id * 100
 	for j := 0; j < nd; j++ {
-		kind := g.next() % 10
+		kind := g.next() % 11
 		switch kind {
 		case 0:
+			defer func(jj int) { g.emit("d-lit " + strconv.Itoa(id) + " " + strconv.Itoa(jj)) }(j)
+		case 10:
+			// probe: a deferred literal capturing a variable declared in the loop body
 			jj := j
-			defer func() { g.emit("d-lit " + strconv.Itoa(id) + " " + strconv.Itoa(jj)) }()
+			defer func() { g.emit("d-cap " + strconv.Itoa(id) + " " + strconv.Itoa(jj)) }()
 		case 1:
 			defer named(g, id, j, counter)
 			counter++
@@ -149,9 +156,7 @@ func node(g *cur, depth, id int) (res int) {
 			defer host.EmitS(g.tag, "d-host "+strconv.Itoa(id)+" "+strconv.Itoa(counter))
 			counter += 10
 		case 5:
-			mode := g.next() % 4
-			jj := j
-			defer func() {
+			defer func(jj, mode int) {
 				r := recover()
 				g.emit("d-recover " + strconv.Itoa(id) + " " + strconv.Itoa(jj) + " " + Classify(r))
 				if r != nil {
@@ -164,7 +169,7 @@ func node(g *cur, depth, id int) (res int) {
 						panic(r) // re-panic with the same value
 					}
 				}
-			}()
+			}(j, g.next()%4)
 		case 6:
 			defer func() { deepRecover(g) }()
 		case 7:
@@ -180,8 +185,8 @@ func node(g *cur, depth, id int) (res int) {
 			defer delete(mp, 1)
 		}
 	}
-	act := g.next() % 8
-	if depth >= 3 && (act == 1 || act == 2 || act == 4) {
+	act := g.next() % 9
+	if depth >= 3 && (act == 1 || act == 2 || act == 4 || act == 8) {
 		act = 0
 	}
 	if g.nodes > 9 && act != 3 {
@@ -209,15 +214,29 @@ func node(g *cur, depth, id int) (res int) {
 		g.pc = sub.end
 		done := make(chan int)
 		go func() {
-			r := 0
+			r, ok := 0, false
 			defer func() {
 				rec := recover()
 				sub.emit("g-top " + Classify(rec))
+				if !ok {
+					r = 0
+				}
 				done <- r
 			}()
 			r = node(sub, depth+1, id*3+1)
+			ok = true
 		}()
 		res = id + <-done
+	case 8:
+		// probe: a callee that panics after setting its named result must not
+		// change the variable its result was going to be assigned to
+		v := -7
+		func() {
+			defer func() { g.emit("probe-recover " + Classify(recover())) }()
+			v = node(g, depth+1, id*3+1)
+		}()
+		g.emit("probe-alias " + strconv.Itoa(id) + " v=" + strconv.Itoa(v))
+		res = id
 	case 7:
 		// panic in the middle of a function that already has results set
 		res = id
